@@ -357,6 +357,56 @@ def run_js(res, spec):
         node.close()
 
 
+def run_nonstring(ns, res, spec):
+    """The lossy-output clause for values that are not strings yet when they reach the writer (numbers, booleans, lists): their text may hold
+    the delimiter under the simple / whitespace policies, and then the warning is due - in both ports."""
+    from ..js import bridge
+    rng = random.Random(spec['seed'] * 7057 + spec['shard'])
+    values = [-5, 2.5, -0.25, 10, 1e21, True, [1, 2], ['a b', 'c'], 7, 'x-y', 'p.q', '']
+    cases = []
+    for _ in range(spec['n']):
+        policy, dlm = rng.choice([('simple', '-'), ('simple', '.'), ('simple', 'e'), ('simple', ','), ('simple', '|'), ('whitespace', ' '), ('simple', '5'), ('simple', 'Tr'), ('simple', 'ru')])
+        table = [[rng.choice(values) for _j in range(rng.randrange(1, 4))] for _i in range(rng.randrange(1, 4))]
+        cases.append((table, policy, dlm))
+
+    def text_of(v, js, dlm):
+        if isinstance(v, list):
+            return ('|' if dlm != '|' else ';').join(text_of(x, js, dlm) for x in v)      # the writer's sub-array delimiter
+        if isinstance(v, bool):
+            return ('true' if v else 'false') if js else str(v)
+        if isinstance(v, float) and js:
+            return repr(v).rstrip('0').rstrip('.') if v == int(v) and abs(v) < 1e21 else ('1e+21' if v == 1e21 else repr(v))
+        return str(v)
+    for table, policy, dlm in cases:
+        payload, wwarn, werr = write_real(ns, [list(r) for r in table], dlm, policy, None, '\n')
+        res.evaluations += 1
+        res.count('nonstring_delimiter_clause_checks')
+        lossy = any(dlm in text_of(v, False, dlm) for r in table for v in r)
+        got = 'sep' in util.warning_kinds(wwarn or [])
+        if werr is None and lossy and not got:
+            res.violation('delimiter-in-nonstring-field-silent', 'py: %r written under %s %r without the separator warning (%r)' % (table, policy, dlm, wwarn), {'table': table, 'policy': policy, 'dlm': dlm, 'engine': 'py', 'leg': 'nonstring'})
+        if werr is None and not lossy and got:
+            res.violation('spurious-separator-warning', 'py: %r written under %s %r warned although no field holds the separator (%r)' % (table, policy, dlm, wwarn), {'table': table, 'policy': policy, 'dlm': dlm, 'engine': 'py', 'leg': 'nonstring'})
+    node = bridge.Node.start()
+    if node is None:
+        res.notes.append('js non-string leg: unavailable (no node)')
+        return
+    try:
+        reqs = [{'table': t, 'delim': d, 'policy': p, 'line_separator': '\n', 'encoding': 'utf-8'} for t, p, d in cases]
+        outs = node.call({'op': 'write_batch', 'cases': reqs})['results']
+        for (table, policy, dlm), o in zip(cases, outs):
+            res.evaluations += 1
+            res.count('js_nonstring_delimiter_clause_checks')
+            lossy = any(dlm in text_of(v, True, dlm) for r in table for v in r)
+            got = 'sep' in util.warning_kinds(o['warnings'])
+            if o['error'] is None and lossy and not got:
+                res.violation('js-delimiter-in-nonstring-field-silent', 'JS: %r written under %s %r without the separator warning (%r)' % (table, policy, dlm, o['warnings']), {'table': table, 'policy': policy, 'dlm': dlm, 'engine': 'js', 'leg': 'nonstring'})
+            if o['error'] is None and not lossy and got:
+                res.violation('js-spurious-separator-warning', 'JS: %r written under %s %r warned although no field holds the separator (%r)' % (table, policy, dlm, o['warnings']), {'table': table, 'policy': policy, 'dlm': dlm, 'engine': 'js', 'leg': 'nonstring'})
+    finally:
+        node.close()
+
+
 def plan(tier, seed):
     specs = []
     k = 2 if tier == 'quick' else 4
@@ -366,6 +416,7 @@ def plan(tier, seed):
     for i in range(8):
         specs.append({'kind': 'random', 'i': i, 'n': 2500 if tier == 'quick' else 25000})
     specs.append({'kind': 'latin1'})
+    specs.append({'kind': 'nonstring', 'n': 600 if tier == 'quick' else 6000})
     for i in range(2 if tier == 'quick' else 8):
         specs.append({'kind': 'js', 'i': i})
     return specs
@@ -379,6 +430,8 @@ def run_shard(spec, res):
         run_random(ns, res, spec)
     elif spec['kind'] == 'latin1':
         run_latin1_table(ns, res)
+    elif spec['kind'] == 'nonstring':
+        run_nonstring(ns, res, spec)
     elif spec['kind'] == 'js':
         run_js(res, spec)
 
@@ -387,7 +440,7 @@ def summarize(tier, seed, m):
     return {
         'rule': 'exhaustive small tables (1x1 with fields up to length %d, 1x2 / 2x1 up to length 2, 2x2 and ragged up to length 1) over {quote, space, tab, CR, LF, a, e-acute, delimiter characters} for each of %d dialects (policies simple/quoted/quoted_rfc x delimiters %r, whitespace, monocolumn) x line separators x encodings {None, utf-8, latin-1}; random larger tables incl. None cells; a table holding all 256 latin-1 code points; file-to-file leg through query_csv; JS writer/reader leg. Representability decided by the reference writer/reader pair. distinct_nontrivial = distinct representable (table, dialect) cases containing at least one special character.' % (3 if tier == 'quick' else 4, len(dialects()), DELIMS),
         'exhaustive': True,
-        'required': ['header_delimiter_clause_checks', 'js_stream_roundtrips', 'representable_roundtrips', 'delimiter_clause_checks', 'none_clause_checks', 'file_to_file_runs', 'latin1_all_byte_tables'],
+        'required': ['nonstring_delimiter_clause_checks', 'js_nonstring_delimiter_clause_checks', 'header_delimiter_clause_checks', 'js_stream_roundtrips', 'representable_roundtrips', 'delimiter_clause_checks', 'none_clause_checks', 'file_to_file_runs', 'latin1_all_byte_tables'],
         'assumptions': ['rv.model.refcsv write_table/read_text decide representability exactly as the quantifier prescribes'],
     }
 
